@@ -354,6 +354,15 @@ func deadClass(src []utils.Source, expr string) string {
 	if len(rs) == 0 {
 		return "live-branches-only " + shape(expr)
 	}
+	if len(rs) == 1 && rs[0] == "" && strings.Contains(expr, "bool") {
+		// a dead static `bool` comparison nested in a further comparison: the outer one inherits "dead" without a reason
+		return "static-comparison-with-bool-modifier-declared-dead"
+	}
+	if len(rs) == 1 && strings.Contains(rs[0], "query always retur") && unlessRHSHasSelector(expr) {
+		// `X unless on() (vector(1) * foo)`: the constant's "always returns" survived a binary operation whose
+		// result depends on a selector
+		return "static-value-assumed-through-vector-matching"
+	}
 	if len(rs) == 1 && strings.Contains(rs[0], "always evaluates to") {
 		// two recognisable root causes of a wrong "this comparison can never be true" verdict
 		if strings.Contains(expr, "bool") {
@@ -367,6 +376,37 @@ func deadClass(src []utils.Source, expr string) string {
 		}
 	}
 	return fmt.Sprintf("dead=%v with=%v", rs, feats)
+}
+
+// unlessRHSHasSelector: some `unless on()` in expr has a right-hand side that is a binary operation involving a selector.
+func unlessRHSHasSelector(expr string) bool {
+	node, err := promParser.ParseExpr(expr)
+	if err != nil {
+		return false
+	}
+	found := false
+	promParser.Inspect(node, func(n promParser.Node, _ []promParser.Node) error {
+		b, ok := n.(*promParser.BinaryExpr)
+		if !ok || b.Op != promParser.LUNLESS || b.VectorMatching == nil || !b.VectorMatching.On || len(b.VectorMatching.MatchingLabels) != 0 {
+			return nil
+		}
+		rhs := promParser.Expr(b.RHS)
+		for {
+			if p, ok := rhs.(*promParser.ParenExpr); ok {
+				rhs = p.Expr
+				continue
+			}
+			break
+		}
+		if rb, ok := rhs.(*promParser.BinaryExpr); ok {
+			r := rb.PositionRange()
+			if reMetric.MatchString(expr[r.Start:r.End]) {
+				found = true
+			}
+		}
+		return nil
+	})
+	return found
 }
 
 func describe(db promqlsim.DB) []string {
